@@ -254,3 +254,56 @@ pub fn concurrent_render(e: &Expression, o: &RunOptions, paths: &[String], round
     let w = shared_render(&c, |c, p| c.scheme(p));
     Ok((&w).stress(paths, &expected, rounds))
 }
+
+// ---- several threads calling parse / compile at once ----------------------------------------
+/// What one call sequence `parse(text)`, `compile`, `scheme("/dev/mdt0")`, `io_map()` answers, as
+/// one string with the embedded clock second replaced.
+pub fn whole_answer(text: &str) -> String {
+    match parse_real(text) {
+        P::Err(e) => format!("parse error: {e}"),
+        P::Panic(p) => format!("parse panic: {}", speclib::report::panic_site(&p)),
+        P::Ok(o, e) => {
+            let head = format!("{:?} {}", opts_of(&o), conv::expr(&e).show());
+            match compile_render(&e, &o, "/dev/mdt0") {
+                C::Ok((t, io)) => format!("{head}\n{}\n{io:?}", crate::props::children::normalise_clock(&t)),
+                C::Err(e) => format!("{head}\ncompile error: {e}"),
+                C::Panic(p) => format!("{head}\ncompile panic: {}", speclib::report::panic_site(&p)),
+            }
+        }
+    }
+}
+
+/// One thread per text, all started together, each repeating its own call `rounds` times and
+/// comparing with the answer obtained beforehand on a thread of its own.  Returns, per thread that
+/// saw a different answer, (thread, round, expected, got).  The schedules are whatever the machine
+/// produces (a stress run, not an exhaustive exploration).
+pub fn concurrent_calls(texts: &[String], rounds: usize) -> Vec<(usize, usize, String, String)> {
+    let expected: Vec<String> = texts
+        .iter()
+        .map(|t| {
+            let t = t.clone();
+            std::thread::Builder::new().stack_size(64 << 20).spawn(move || whole_answer(&t)).unwrap().join().unwrap_or_else(|_| "thread died".into())
+        })
+        .collect();
+    let barrier = std::sync::Barrier::new(texts.len());
+    let found = std::sync::Mutex::new(vec![]);
+    std::thread::scope(|s| {
+        for (k, t) in texts.iter().enumerate() {
+            let (barrier, found, expected) = (&barrier, &found, &expected);
+            std::thread::Builder::new()
+                .stack_size(64 << 20)
+                .spawn_scoped(s, move || {
+                    barrier.wait();
+                    for r in 0..rounds {
+                        let got = whole_answer(t);
+                        if got != expected[k] {
+                            found.lock().unwrap().push((k, r, expected[k].clone(), got));
+                            break;
+                        }
+                    }
+                })
+                .unwrap();
+        }
+    });
+    found.into_inner().unwrap()
+}
